@@ -1,7 +1,7 @@
 (* Model of emmet/markup/__init__.py (parse), snippets.py, utils.py, attributes.py,
    implicit_tag.py, lorem (name handling only), addon/xsl.py, addon/label.py; addon/bem.py is
    model/MarkupBem.v and is hooked into transform_node here.
-   markup.href is not modelled (DESIGN §7).  Definitions only. *)
+   markup.href: model/MarkupHref.v + insert_href / insert_wrap in model/MarkupConvert.v.  Definitions only. *)
 From Emmet Require Import lib.Base model.MarkupTokenizer model.MarkupParser model.MarkupConvert model.MarkupBem.
 From Emmet Require Import gen.GenImplicit.
 
